@@ -72,8 +72,15 @@ class Check(BaseCheck):
                     e = float(np.max(np.abs(np.asarray(im[key]) - mm[key])) / max(np.abs(v).max(), 1e-300))
                 if e > 1e-9:
                     fails.append(core.Failure("correspondence", "measure %s vs model" % key, "%s rel.err %.3g" % (c["name"], e), dict(c, measure=key)))
+            # vertices whose incident triangle normals cancel (pinched vertices, folded fans): the normalised vertex normal is 0/0 there
+            _cr = corr_fem.tri_geom(v, t)[3]
+            _raw = np.zeros((len(v), 3)); np.add.at(_raw, t.reshape(-1), np.repeat(_cr, 3, axis=0))
+            well = np.linalg.norm(_raw, axis=1) > 1e-6 * max(np.linalg.norm(_raw, axis=1).max(), 1e-300)
             for key in ("volume", "vnormals"):
                 a, b = im[key], mm[key]
+                if key == "vnormals" and a[0] == "ok" and b[0] == "ok" and not well.all():
+                    a = ("ok", np.asarray(a[1])[well]); b = ("ok", np.asarray(b[1])[well])
+                    stats.monitor("vertex normals compared only where the normal sum does not vanish")
                 if a[0] != b[0] or (a[0] == "ok" and core.relerr(a[1], b[1]) > 1e-9 and np.max(np.abs(np.asarray(a[1]) - np.asarray(b[1]))) > 1e-12) or (a[0] == "err" and a[1] != b[1]):
                     fails.append(core.Failure("correspondence", "measure %s vs model" % key, "%s impl %s model %s" % (c["name"], str(a)[:60], str(b)[:60]), dict(c, measure=key)))
             rn = wire.Reply(drv.ask("normalize %s %s" % (wire.verts(v), wire.elems(t))))
@@ -93,13 +100,15 @@ class Check(BaseCheck):
             def off():
                 m = TriaMesh(pv, pt); m.normal_offset_(d); return np.array(m.v)
             io = core.call(off)
-            if io[0] == "ok":
+            if io[0] == "ok" and not well.all():
+                pass
+            elif io[0] == "ok":
                 rr = wire.Reply(ro)
                 if rr.status != "ok" or core.relerr(io[1], rr.v3s()) > 1e-9:
                     fails.append(core.Failure("correspondence", "normal_offset_ vs model", c["name"], c))
             elif ro != "err " + io[1]:
                 fails.append(core.Failure("correspondence", "normal_offset_ vs model", "%s impl %s model %s" % (c["name"], io, ro[:40]), c))
-            if im["vnormals"][0] == "ok" and io[0] == "ok":
+            if im["vnormals"][0] == "ok" and io[0] == "ok" and well.all():
                 # the same operations on ONE object, interleaved with queries: the model is stateless, so every step must be the
                 # model's function of the current vertices (no cached normals may survive a vertex-moving operation)
                 ds = [0.2 * im["avg"] * float(rng.uniform(0.3, 1.0)), -0.15 * im["avg"] * float(rng.uniform(0.3, 1.0))]
@@ -224,8 +233,9 @@ class Check(BaseCheck):
         if res2[0] != "ok":
             return core.Violation("similarity", "raised on transformed mesh", case)
         i2 = res2[1]
-        if core.relerr(i2["areas"], sfac ** 2 * im["areas"]) > 1e-8 or core.relerr(i2["qual"], im["qual"]) > 1e-8 or abs(i2["avg"] - sfac * im["avg"]) > 1e-9 * i2["avg"] \
-                or core.relerr(i2["normals"], im["normals"] @ Q.T * (np.linalg.det(Q))) > 1e-8:
+        kap = max(1.0, 1e-5 * np.abs(v).max() / max(np.linalg.norm(v1 - v0, axis=1).min(), 1e-300))          # conditioning of the edge differences
+        if core.relerr(i2["areas"], sfac ** 2 * im["areas"]) > 1e-8 * kap or core.relerr(i2["qual"], im["qual"]) > 1e-8 * kap or abs(i2["avg"] - sfac * im["avg"]) > 1e-9 * kap * i2["avg"] \
+                or core.relerr(i2["normals"], im["normals"] @ Q.T * (np.linalg.det(Q))) > 1e-8 * kap:
             return core.Violation("similarity", "measures do not transform with the proper power of s under a similarity", case)
         if im["vnormals"][0] == "ok":
             vn = im["vnormals"][1]
